@@ -41,9 +41,9 @@ TOP = {
     "TwoBlockCor": ["PV.TB.code_least_action", "PV.TB.C03_unique", "PV.TB.same_as_general", "PV.TB.natural"],
     "Instance": ["PV.Inst.filt", "PV.Inst.blocks", "PV.Inst.twoBlocks", "PV.Inst.unperturbed", "PV.Inst.gapped"],
     "GeneratedInst": ["PV.Inst.trivMainEqs", "PV.Inst.trivMainEqs2b", "PV.Inst.trivNonHermEqs"],
-    "Model": ["PV.Model.filtered", "PV.Model.blocks", "PV.Model.lift", "PV.Model.gapped_lift"],
-    "MatrixModel": ["PV.MatrixModel.coeffBlocks", "PV.MatrixModel.coeffUnperturbed", "PV.MatrixModel.coeff_gap"],
-    "ModelTheorems": ["PV.MatrixModel.gapped", "PV.MatrixModel.main_theorems"],
+    "Model": ["PV.Model.filtered", "PV.Model.blocks", "PV.Model.liftNH", "PV.Model.lift", "PV.Model.gapped_lift"],
+    "MatrixModel": ["PV.MatrixModel.coeffBlocks", "PV.MatrixModel.coeffUnperturbedNH", "PV.MatrixModel.coeffUnperturbed", "PV.MatrixModel.coeff_gap"],
+    "ModelTheorems": ["PV.MatrixModel.gapped", "PV.MatrixModel.main_theorems", "PV.MatrixModel.gappedNH", "PV.MatrixModel.nh_theorems"],
     "TwoBlockModel": ["PV.MatrixModel.masks2", "PV.MatrixModel.twoBlocks", "PV.MatrixModel.two_block_theorems"],
     "CauchyBridge": ["PV.Bridge.sum_antidiagonal_eq_sum_box", "PV.Bridge.coeff_mul_box", "PV.Bridge.coeff_mul_blocks"],
     "Unique": ["PV.lsa_unique", "PV.code_least_action", "PV.C03_unique", "PV.shift_cov", "PV.scale_cov", "PV.natural"],
